@@ -331,7 +331,11 @@ func PostObj(r *rand.Rand, o JSONOpts, depth int) map[string]any {
 		case 1:
 			m["url"] = LinkObj(r)
 		default:
-			m["url"] = []any{LinkObj(r), "https://site.example/alt", LinkObj(r)}
+			first, second := LinkObj(r), LinkObj(r)
+			m["url"] = []any{first, "https://site.example/alt", second}
+			if u, _ := first["href"].(string); strings.HasSuffix(u, "7.bin") || strings.HasSuffix(fmt.Sprint(first["url"]), "3.bin") {
+				m["url"] = []any{} // present, and an explicitly empty list (decided by a value already drawn: no other document changes)
+			}
 		}
 	}
 	if r.Intn(2) == 0 {
